@@ -192,4 +192,53 @@ theorem delIdx_agrees (a : Al) (idx count : Nat) (hidx : idx ≤ SIZE_T_MAX) (hc
           · first | omega | cases h
     · cases h
 
+
+/-- `array_list_add`: `cx` is the answer of the nested `array_list_expand_internal(arr, length + 1)` (tied by
+`expandInternal_agrees`), zero exactly when the model's expansion succeeds; `ap'` the array pointer after it -/
+theorem add_agrees (alloc : Alloc) (a : Al) (data : Elem) (hlen : a.length ≤ SIZE_T_MAX) (hsz : a.size ≤ SIZE_T_MAX)
+    (arr dp ap ap' cx : Int) (r : Res) (h : add alloc a data = .ok r)
+    (hcx : cx ≠ 0 ↔ (r.ret = -1 ∧ a.length ≤ SIZE_T_MAX - 1)) :
+    ∃ out, Translated.array_list_add arr dp a.length ap a.length ap' cx = .ok out ∧
+      out.ret = r.ret ∧ out.arr_length = r.al.length ∧ (r.ret = 0 ∨ r.ret = -1) ∧
+      (r.ret = 0 → out.calls = [("array_list_expand_internal", [arr, (a.length : Int) + 1]), ("store8", [ap' + (a.length : Int) * 8, dp])]) := by
+  unfold add at h
+  unfold Translated.array_list_add
+  simp only [SIZE_T_MAX, sizeMax, alAddGuard, alAddNeed, ckSize_bind, Outcome.pure_eq] at h hlen hsz hcx
+  split at h
+  · cases h
+    rw [if_pos (by omega)]
+    exact ⟨_, rfl, rfl, rfl, by simp, by simp⟩
+  · rw [if_neg (by omega)]
+    split at h
+    · cases hx : expandInternal alloc a (a.length + 1) with
+      | fault w => rw [hx] at h; cases h
+      | ok e =>
+        rw [hx] at h
+        have hl := expandInternal_length alloc a _ (by simp only [SIZE_T_MAX, sizeMax]; omega) (by simp only [SIZE_T_MAX, sizeMax]; omega) e hx
+        obtain ⟨a1, rc⟩ := e
+        simp only [Outcome.bind_ok] at h hl
+        split at h
+        · cases h
+          have : cx ≠ 0 := hcx.mpr ⟨rfl, by omega⟩
+          rw [if_pos this]
+          exact ⟨_, rfl, rfl, by simp [hl], by simp, by simp⟩
+        · cases hw : writeSlot a1 a.length data "add: arr->array[idx] = data" with
+          | fault w => rw [hw] at h; cases h
+          | ok a2 =>
+            rw [hw] at h
+            have hl2 : a2.length = a1.length := by
+              unfold writeSlot at hw; split at hw <;> cases hw; rfl
+            simp only [Outcome.bind_ok] at h
+            split at h
+            · cases h
+              have : ¬ cx ≠ 0 := fun hc => by have := (hcx.mp hc).1; simp at this
+              rw [if_neg this]
+              have hm : (((a.length : Int) + 1) % 18446744073709551616) = (a.length : Int) + 1 := by omega
+              simp only [hm]
+              refine ⟨_, rfl, rfl, ?_, by simp, ?_⟩
+              · simp only [hl2, hl]; push_cast; rfl
+              · intro _; simp
+            · cases h
+    · cases h
+
 end JsonC.TranslatedAl
